@@ -56,6 +56,11 @@ _CFI_ITEM = st.fixed_dictionaries({"i": st.sampled_from([0, 0, 0, 1, 2, 3, 99, 9
                                    "ev": st.lists(_CFI_EV, min_size=1, max_size=3)})
 
 
+# a block with "iv" starts a new byte interval (contiguous address) unless it is
+# the first block of its section
+_IV_CHOICES = [False, False, False, False, True]
+
+
 def block_st(isa, cfg, data_ok=True, only_data=False, cfi=False):
     ords = _ord_names(isa)
     terms = _term_names(isa) if cfg else []
@@ -69,6 +74,7 @@ def block_st(isa, cfg, data_ok=True, only_data=False, cfi=False):
         "fn": st.sampled_from([None, 0, 0, 0, 1, 1, 2, 3]),
         "entry": st.booleans(),
         "notes": st.lists(st.integers(0, 40), max_size=4),
+        "iv": st.sampled_from(_IV_CHOICES),
         **({"cfi": st.lists(_CFI_ITEM, max_size=3)} if cfi else {}),
     })
     unit = st.fixed_dictionaries({
@@ -82,6 +88,7 @@ def block_st(isa, cfg, data_ok=True, only_data=False, cfi=False):
         "nl": st.sampled_from([0, 1, 1, 2]),
         "ne": st.sampled_from([0, 0, 1]),
         "notes": st.lists(st.integers(0, 40), max_size=3),
+        "iv": st.sampled_from(_IV_CHOICES),
     })
     if only_data:
         return data
@@ -126,13 +133,13 @@ def scope_edit_st(isa):
                                   "pos": st.sampled_from(["entry", "exit"]), "b": _small, "patch": p})
 
 
-def case_st(tier, pairs=None, cfg=True, max_edits=None, min_edits=1, scopes=False, cfi=False, pdata=False):
+def case_st(tier, pairs=None, cfg=True, max_edits=None, min_edits=1, scopes=False, cfi=False, pdata=False, ivs=False):
     pairs = pairs or I.PAIRS
     nb = 6 if tier == "quick" else 10
     ne = max_edits or (5 if tier == "quick" else 9)
 
     def build(pair):
-        key = (pair, tier, cfg, ne, min_edits, scopes, cfi, pdata)
+        key = (pair, tier, cfg, ne, min_edits, scopes, cfi, pdata, ivs)
         if key not in _ST_CACHE:
             _ST_CACHE[key] = _build(pair)
         return _ST_CACHE[key]
@@ -153,6 +160,7 @@ def case_st(tier, pairs=None, cfg=True, max_edits=None, min_edits=1, scopes=Fals
             "funcs": st.sampled_from([True, True, True, False]),
             "entry": st.one_of(st.none(), _small),
             "cfi": st.just(bool(cfi)),
+            "multi_iv": (st.booleans() if ivs else st.just(False)),
             "edits": st.lists((st.one_of(edit_st(isa, use_cfg, pdata=pdata), edit_st(isa, use_cfg, pdata=pdata), scope_edit_st(isa))
                                if scopes else edit_st(isa, use_cfg, cfi=cfi, pdata=pdata)), min_size=min_edits, max_size=ne),
         })
@@ -226,6 +234,7 @@ class Block:
     func: Optional[str]
     entry: bool
     uoffs: List[int] = dataclasses.field(default_factory=list)
+    newiv: bool = False
 
     @property
     def size(self):
@@ -369,6 +378,7 @@ class Case:
                         u.field = (0, width)
                     units.append(u)
             blk = Block(g, si, bool(rb["code"]), units, names, ends, func, g in self.entries.get(func or "", []))
+            blk.newiv = bool(rb.get("iv")) and bool(spec.get("multi_iv")) and g != self.sections[si][1][0]
             off = 0
             for u in units:
                 blk.uoffs.append(off)
@@ -821,6 +831,7 @@ def build(case: Case, *, cfi=None) -> Built:
     out.blocks = {}
     out.symbols = {}
     out.sections = []
+    out.intervals = []
     out.proxies = {}
     sym_exprs = []
     notes = {"comments": {}, "padding": {}}
@@ -832,12 +843,24 @@ def build(case: Case, *, cfi=None) -> Built:
     for si, (name, idxs) in enumerate(c.sections):
         anycode = any(c.blocks[g].code for g in idxs)
         sec = gtirb.Section(name=name, flags=set(flags_code if anycode else flags_data), module=m)
-        contents = b"".join(u.data for g in idxs for u in c.blocks[g].units)
-        bi = gtirb.ByteInterval(contents=contents, address=addr, section=sec)
-        out.sections.append((sec, bi))
-        off = 0
+        bi = None
+        out.intervals.append([])
+        iv_addr = addr
         for g in idxs:
             b = c.blocks[g]
+            if bi is None or b.newiv:
+                group = [g]
+                for g2 in idxs[idxs.index(g) + 1:]:
+                    if c.blocks[g2].newiv:
+                        break
+                    group.append(g2)
+                contents = b"".join(u.data for g2 in group for u in c.blocks[g2].units)
+                bi = gtirb.ByteInterval(contents=contents, address=iv_addr, section=sec)
+                iv_addr += len(contents)
+                if not out.intervals[-1]:
+                    out.sections.append((sec, bi))
+                out.intervals[-1].append(bi)
+                off = 0
             cls = gtirb.CodeBlock if b.code else gtirb.DataBlock
             blk = cls(offset=off, size=b.size, byte_interval=bi)
             out.blocks[g] = blk
@@ -1083,6 +1106,7 @@ class Observed:
         self.base = {}      # byte interval -> section-relative base
         self.sec_of = {}    # byte interval -> section index
         self.problems = []
+        self.reordered = []
         names = [n for n, _ in built.case.sections]
         self.extra_sections = []
         by_name = {s.name: s for s in m.sections}
@@ -1093,22 +1117,38 @@ class Observed:
                 self.problems.append(f"section {name} disappeared")
                 continue
             data = bytearray()
-            ivs = sorted(sec.byte_intervals, key=lambda bi: (bi.address if bi.address is not None else 1 << 62))
+            orig = {id(bi): k for k, bi in enumerate(built.intervals[si])} if getattr(built, "intervals", None) else {}
+            by_addr = sorted(sec.byte_intervals, key=lambda bi: (bi.address if bi.address is not None else 1 << 62))
+            # the listing order of the input's own intervals is their original
+            # order; whether the final layout kept it is reported separately
+            ivs = sorted(by_addr, key=lambda bi: orig.get(id(bi), len(orig)))
+            known = [bi for bi in by_addr if id(bi) in orig and bi not in self.skipped]
+            if [orig[id(bi)] for bi in known] != sorted(orig[id(bi)] for bi in known):
+                self.reordered.append((name, [orig[id(bi)] for bi in known]))
+                # finding C01-layout-reorders-intervals is C01's to report;
+                # every other clause is judged on the listing order, so put
+                # the intervals back (addresses only)
+                cur = min(bi.address for bi in by_addr if bi.address is not None)
+                for bi in ivs:
+                    bi.address = cur
+                    cur += bi.size
+                by_addr = list(ivs)
             prev_end = None
+            for bi in by_addr:
+                if bi.address is None:
+                    self.problems.append(f"interval without address in {name}")
+                    continue
+                if prev_end is not None and bi.address < prev_end:
+                    self.problems.append(f"overlapping intervals in {name}")
+                prev_end = bi.address + bi.size
             for bi in ivs:
                 if bi in self.skipped:
                     continue
-                if bi.address is None:
-                    self.problems.append(f"interval without address in {name}")
-                if prev_end is not None and bi.address is not None and bi.address < prev_end:
-                    self.problems.append(f"overlapping intervals in {name}")
                 self.base[bi] = len(data)
                 self.sec_of[bi] = si
                 data += bytes(bi.contents)
                 if bi.size != len(bi.contents):
                     data += b"\x00" * (bi.size - len(bi.contents))
-                if bi.address is not None:
-                    prev_end = bi.address + bi.size
             self.sec_bytes.append(bytes(data))
         for s in m.sections:
             if s.name not in names:
@@ -1178,7 +1218,7 @@ def describe(case: Case):
         out["listing"].append(f"  .section {name}")
         for g in idxs:
             b = case.blocks[g]
-            hdr = f"# block {g} ({'code' if b.code else 'data'}{', func ' + b.func if b.func else ''})"
+            hdr = f"# block {g} ({'code' if b.code else 'data'}{', func ' + b.func if b.func else ''}{', starts a new byte interval' if b.newiv else ''})"
             out["listing"].append(hdr)
             for n in b.labels:
                 out["listing"].append(f"{n}:")
@@ -1307,3 +1347,32 @@ def trailing_label_then_insert(case: Case, cfi=False) -> bool:
             if items and isinstance(items[-1], Label):
                 return True
     return False
+
+
+def multi_interval_growth(case: Case) -> bool:
+    """Signature of finding C01-layout-reorders-intervals: some section has
+    several byte intervals and the rewrite adds bytes somewhere (only then can
+    an interval grow into its successor and force the closing re-layout)."""
+    if not any(b.newiv for b in case.blocks):
+        return False
+    return any(ed.op in ("insert", "replace") for ed in case.edits)
+
+
+def pack_layout(built):
+    """Give the byte intervals of every multi-interval section contiguous
+    addresses in listing order (the input's own intervals in their original
+    order, new ones after them by address).  Used where two runs are compared
+    whose closing re-layouts may differ (finding C01-layout-reorders-intervals
+    and gtirb_layout's default alignment gaps)."""
+    for si, ivs0 in enumerate(built.intervals):
+        sec = built.sections[si][0]
+        live = [bi for bi in sec.byte_intervals]
+        if len(live) < 2 or any(bi.address is None for bi in live):
+            continue
+        orig = {id(bi): k for k, bi in enumerate(ivs0)}
+        live.sort(key=lambda bi: bi.address)
+        live.sort(key=lambda bi: orig.get(id(bi), len(orig)))
+        cur = min(bi.address for bi in live)
+        for bi in live:
+            bi.address = cur
+            cur += bi.size
